@@ -39,22 +39,14 @@ HARNESSES += [
     'idf_output_vector/idf_input_vector<int> round trip followed by an integer',
     'vector length 0..NMAX, elements and following int over all of int; target vector pre-filled with stale content',
     'length and elements equal, stream not failed, following integer intact, re-serialises to the same tokens',
-    dict(defs=dict(NMAX=2), unwind=5, unwindset=_STR, cap=600), dict(defs=dict(NMAX=4), unwind=7, unwindset=_STR, cap=3000)),
+    dict(defs=dict(NMAX=2), unwind=5, unwindset=_STR, cap=600), dict(defs=dict(NMAX=4), unwind=7, unwindset=_STR, cap=3000),
+    cbmc_flags=['-DVS_NOBJ=4', '-DVS_NBUF=2']),
  _h('c12_vec_derivation', 'c12_vectors.cxx', 'harness_c12_vec_derivation', [_DF, _DB + 'interrogateType.cxx'],
     'idf vector of InterrogateType::Derivation round trip',
     'vector length 0..NMAX, all four fields over all of int',
     'field-wise equality, following integer intact, re-serialises to the same tokens',
-    dict(defs=dict(NMAX=2), unwind=5, unwindset=_STR, cap=600), dict(defs=dict(NMAX=3), unwind=6, unwindset=_STR, cap=3000)),
- _h('c12_vec_enumvalue', 'c12_vectors.cxx', 'harness_c12_vec_enumvalue', [_DF, _DB + 'interrogateType.cxx'],
-    'idf vector of InterrogateType::EnumValue round trip (three strings + value)',
-    'vector length 0..NMAX, strings of length 0..LMAX over all byte values, value over all of int',
-    'field-wise equality, following integer intact, re-serialises to the same tokens',
-    dict(defs=dict(NMAX=2, LMAX=2), unwind=5, unwindset=_STR, cap=600)),
- _h('c12_vec_parameter', 'c12_vectors.cxx', 'harness_c12_vec_parameter', [_DF, _DB + 'interrogateFunctionWrapper.cxx'],
-    'idf vector of InterrogateFunctionWrapper::Parameter round trip',
-    'vector length 0..NMAX, name of length 0..LMAX over all byte values, flags and type over all of int',
-    'field-wise equality, following integer intact, re-serialises to the same tokens',
-    dict(defs=dict(NMAX=1, LMAX=1), unwind=5, unwindset=_STR, cap=600)),
+    dict(defs=dict(NMAX=2), unwind=5, unwindset=_STR, cap=600), dict(defs=dict(NMAX=3), unwind=6, unwindset=_STR, cap=3000),
+    cbmc_flags=['-DVS_NOBJ=4', '-DVS_NBUF=2']),
 ]
 
 _REC = [_DF, _DB + 'interrogateComponent.cxx', _DB + 'interrogateDatabase.cxx']
@@ -108,9 +100,17 @@ HARNESSES += [
  _rec('type', ['interrogateType.cxx'], 'InterrogateType::output/input incl. all eight vectors, derivations and enum values (shape 0x%03x)' % sh,
       what + '; _flags is one of two fixed bit patterns (array bit clear / set: it decides whether _array_size is in the file, '
       'and a symbolic token count is unaffordable), _array_size symbolic for array types and the constructor default otherwise',
-      cap, hid='c12_rec_type_%03x' % sh, shape=sh)
+      cap, hid='c12_rec_type_%03x' % sh, shape=sh, **({} if sh in (0x000, 0x3ff) else {'tiers': ('thorough',)}))
  for sh, what, cap in _TYPE_SHAPES
+] + [
+ dict(_rec('wrapper', ['interrogateFunctionWrapper.cxx'], 'idf vector of InterrogateFunctionWrapper::Parameter round trip followed by an integer',
+           '0, 1 or 2 parameters', 32, hid='c12_vec_parameter'), entry='harness_c12_vec_parameter'),
+ dict(_rec('type', ['interrogateType.cxx'], 'idf vector of InterrogateType::EnumValue (three strings + value) round trip followed by an integer',
+           '0 or 1 enum value (two elements of three strings each did not finish within the cap)', 48, hid='c12_vec_enumvalue'), entry='harness_c12_vec_enumvalue'),
 ]
+HARNESSES[-1]['bounds']['quick']['defs']['VEC_MAX'] = 1
+HARNESSES[-1]['bounds']['thorough']['defs']['VEC_MAX'] = 1
+
 
 HARNESSES += [
  dict(_rec('element', ['interrogateElement.cxx'], 'InterrogateElement::input on files of minor format 3.0, 3.1, 3.2, 3.3 written by a reference writer kept in the harness',
@@ -142,6 +142,21 @@ def _trunc(hid, lo, hi, what, monitor):
 HARNESSES += [
  _trunc('c12_truncate_head', 0, 6, 'cut inside the name or before the alt-name count', True),
  _trunc('c12_truncate_tail', 6, 32, 'cut after the alt-name count', False),
+]
+
+_OPEN_READ = '_ZNK8Filename9open_readERSt14basic_ifstreamIcSt11char_traitsIcEE'
+_DB_READ = '_ZN19InterrogateDatabase4readERSiP20InterrogateModuleDef'
+HARNESSES += [
+ dict(id='c12_header', property='C12', src='c12_header.cxx', entry='harness_c12_header',
+      tus=[_DB + 'interrogateDatabase.cxx', _DB + 'config_interrogatedb.cxx', 'src/dtoolutil/filename.cxx'],
+      cut=[_OPEN_READ, _DB_READ],
+      desc='InterrogateDatabase::load_latest header logic: identifier, major and minor version checks, unreadable file, failed read',
+      domain='file identifier, expected identifier, major and minor version over all of int; open succeeds or fails; read() succeeds or fails; '
+             'absolute file name (no search path); Filename::open_read and InterrogateDatabase::read replaced by stand-ins',
+      oracle='read() is called exactly when the file opens and major == 3 and minor <= 3, and then sees these version numbers; the error '
+             'flag is set iff open failed, or version mismatch, or (expected identifier != 0 and differs), or read() failed; the request is consumed',
+      bounds={'quick': dict(defs=dict(), unwind=8, unwindset=dict(list(STATIC_INIT_LOOPS.items()) + list(DIAG_LOOPS.items())), cap=600)},
+      cbmc_flags=['-DVS_CAP=16']),
 ]
 
 PROPERTY_INFO = {'C12': {'level': 'model_checking',
